@@ -103,6 +103,12 @@ def commit (s : KvStore) : KvStore :=
   | some (d, false) => { s with disk := d.over s.disk }
   | _ => s
 
+/-- `needFlush()` -/
+def needFlush (s : KvStore) : Bool :=
+  match s.immutable with
+  | some (_, false) => true
+  | _ => false
+
 /-- the locked tail of `Flush`: new snapshot, `immutable = nil`, cache purge -/
 def finish (s : KvStore) : KvStore :=
   match s.immutable with
@@ -303,6 +309,9 @@ structure SchemaStore where
   curEmpty : Bool := true
   frz : Option ((Nat → Option Nat) × Bool) := none -- `immutable` and its IsEmpty()
   disk : Nat → Option Schema := fun _ => none      -- all persisted increments of a metric, appended
+  /-- the LRU schema cache (metric id → object), filled by readers (`GetSchema`), purged by `Flush`.
+  The create path (`getSchemaLocked`) does not consult it; see `gen_ignores_cache`. -/
+  cache : Nat → Option Nat := fun _ => none
 
 /-- the pointer `GetSchema` returned -/
 inductive SPtr
@@ -333,6 +342,26 @@ def getSchema (s : SchemaStore) (m : Nat) : SchemaStore × SPtr :=
   | none => match s.disk m with
     | some sc => let r := s.alloc m sc; (r.1, .obj r.2)
     | none => (s, .nil)
+
+/-- `GetSchema` as readers (queries, the `schema` op) use it: memory, else the LRU cache, else the kv
+family (a fresh object, which is then added to the cache) -/
+def getSchemaReader (s : SchemaStore) (m : Nat) : SchemaStore × SPtr :=
+  match s.memLookup m with
+  | some o => (s, .obj o)
+  | none => match s.cache m with
+    | some o => (s, .obj o)
+    | none => match s.disk m with
+      | some sc => let r := s.alloc m sc
+                   ({ r.1 with cache := fun j => if j = m then some r.2 else r.1.cache j }, .obj r.2)
+      | none => (s, .nil)
+
+/-- the lookup of a create path that TRUSTS the LRU cache before the kv family (not lindb's) -/
+def getSchemaCached (s : SchemaStore) (m : Nat) : SchemaStore × SPtr :=
+  match s.memLookup m with
+  | some o => (s, .obj o)
+  | none => match s.cache m with
+    | some o => (s, .obj o)
+    | none => s.getSchema m
 
 /-- lines `if schema == nil {…}` and `s.mutable.PutIfNotExist(id, schema)` -/
 def adopt (s : SchemaStore) (m : Nat) (p : SPtr) : SchemaStore × Nat :=
@@ -372,7 +401,8 @@ def commit (s : SchemaStore) : SchemaStore :=
 def finish (s : SchemaStore) : SchemaStore :=
   match s.frz with
   | some (f, false) =>
-    { s with heap := fun o => if f (s.owner o) = some o then (s.heap o).markPersisted else s.heap o, frz := none }
+    { s with heap := fun o => if f (s.owner o) = some o then (s.heap o).markPersisted else s.heap o, frz := none,
+             cache := fun _ => none }
   | _ => s
 
 def flush (s : SchemaStore) : SchemaStore := s.commit.finish
@@ -382,7 +412,8 @@ def flush (s : SchemaStore) : SchemaStore := s.commit.finish
 def finishWritten (s : SchemaStore) (pre : Nat → Schema) : SchemaStore :=
   match s.frz with
   | some (f, false) =>
-    { s with heap := fun o => if f (s.owner o) = some o then (s.heap o).markPrefix (pre o) else s.heap o, frz := none }
+    { s with heap := fun o => if f (s.owner o) = some o then (s.heap o).markPrefix (pre o) else s.heap o, frz := none,
+             cache := fun _ => none }
   | _ => s
 
 def recover (s : SchemaStore) : SchemaStore := { disk := s.disk }
@@ -535,6 +566,8 @@ structure Cfg where
   prepareSwapsEmpty : Bool := false
   /-- `getOrCreateValue` looks into the memory maps before the persisted bucket -/
   kvMemFirst : Bool := true
+  /-- the schema lookup of the create path (`getSchemaLocked`) consults the LRU cache (lindb's does not) -/
+  schemaLockedUsesCache : Bool := false
   deriving DecidableEq, Repr
 
 structure Node where
@@ -591,9 +624,9 @@ def genTagValueID (c : Cfg) (nd : Node) (tk v : Nat) : Node × GenOut :=
   | none => (nd, .stuck)
   | some i => (nd, .id i)
 
-/-- `GetSchema` (lookup only; loading from the kv family allocates an object) -/
+/-- `GetSchema` (lookup only; loading from the kv family allocates an object and fills the cache) -/
 def getSchema (nd : Node) (m : Nat) : Node × Option Schema :=
-  let r := nd.schema.getSchema m
+  let r := nd.schema.getSchemaReader m
   match r.2 with
   | .nil => ({ nd with schema := r.1 }, none)
   | .obj o => ({ nd with schema := r.1 }, some (r.1.heap o))
@@ -660,6 +693,36 @@ def metaFlushPrefix (nd : Node) (k : Nat) : Node := (List.range k).foldl metaFlu
 
 def metaFlush (nd : Node) : Node := nd.metaFlushPrefix 5
 
+/-- A metadata flush in which the first dictionary flush that actually writes (`needFlush`) FAILS at its
+kv family commit: `indexKVStore.Flush` returns the error before touching `immutable` / `snapshot`, and
+`metricMetaDatabase.Flush` returns it at once — the steps before are done, the failing step and the
+steps after it change nothing. Returns the number of steps that ran (5 = nothing needed a flush,
+no failure). -/
+def metaFlushFailAt (nd : Node) : Nat :=
+  if nd.ns.needFlush then 1 else if nd.metric.needFlush then 2 else if nd.tagValue.needFlush then 4 else 5
+
+/-- witness schedule reader ‖ writer ‖ flush on a schema that is persisted and not in memory:
+a reader's `GetSchema(m)` has read the kv family and is stopped before `cache.Add`; a writer creates
+field `fb`; PrepareFlush + Flush (commit, purge of the cache); the reader adds its — now stale — object
+to the cache; a writer creates field `fc`. lindb's create path reads memory, then the kv family; a create
+path that trusts the cache extends the stale object and hands `fb`'s id out again. -/
+def schemaCacheRace (c : Cfg) (nd : Node) (m fb fc : Nat) : Node × GenOut × GenOut :=
+  let rd := nd.schema.getSchema m
+  let fromKV := (nd.schema.memLookup m).isNone
+  let nd1 : Node := { nd with schema := rd.1 }
+  let rb := nd1.genFieldID c m fb
+  let nd2 := (rb.1.metaPrepareE c.prepareSwapsEmpty).metaFlush
+  let nd3 : Node := match rd.2 with
+    | .obj o => if fromKV then { nd2 with schema := { nd2.schema with cache := fun j => if j = m then some o else nd2.schema.cache j } } else nd2
+    | .nil => nd2
+  if c.schemaLockedUsesCache then
+    let l := nd3.schema.getSchemaCached m
+    let r := fieldLocked nd3.lim l.1 m fc l.2
+    ({ nd3 with schema := r.1 }, rb.2, r.2)
+  else
+    let rc := nd3.genFieldID c m fc
+    (rc.1, rb.2, rc.2)
+
 /-- a metadata flush during which `GenFieldID(m, f)` runs between the kv commit of the schema family
 and the locked tail of `metricSchemaStore.Flush` (the flush runs in a goroutine of its own) -/
 def metaFlushFieldInWindow (c : Cfg) (nd : Node) (m f : Nat) : Node × GenOut :=
@@ -719,6 +782,9 @@ def indexFlushPrefix (nd : Node) (shard k : Nat) : Node :=
 
 def indexFlush (nd : Node) (shard : Nat) : Node := nd.indexFlushPrefix shard 4
 
+/-- an index flush whose series dictionary flush (the last step) fails at its kv family commit -/
+def indexFlushFailAt (nd : Node) (shard : Nat) : Nat := if (nd.shards shard).series.needFlush then 3 else 4
+
 /-- reopen after Close() or after a crash: neither writes anything (Sequence.Close only unmaps),
 so both are "what is on disk and in the sequence file" -/
 def recover (nd : Node) : Node :=
@@ -744,6 +810,7 @@ inductive Op
   | reopen
   | metaFlushCrash (k : Nat)            -- the process dies after k steps of a metadata flush
   | indexFlushCrash (shard k : Nat)     -- … after k steps of one shard's index flush
+  | metaFlushFail (k : Nat)             -- a metadata flush that returns an error at step k (no crash)
   deriving Repr
 
 def step (c : Cfg) (nd : Node) : Op → Node × Option GenOut
@@ -759,6 +826,7 @@ def step (c : Cfg) (nd : Node) : Op → Node × Option GenOut
   | .reopen => (nd.recover, none)
   | .metaFlushCrash k => ((nd.metaFlushPrefix k).recover, none)
   | .indexFlushCrash sh k => ((nd.indexFlushPrefix sh k).recover, none)
+  | .metaFlushFail k => (nd.metaFlushPrefix k, none)
 
 def run (c : Cfg) : Node → List Op → Node
   | nd, [] => nd
